@@ -160,7 +160,7 @@ def k_hist(ctx, seqs, bins, normalize, pseudocount, metric=None, seqs2=None, con
             given = [str(v) for v in list(log[0][1])]
             ctx.count("metric_input_observed")
             if collections.Counter(given) != collections.Counter(seqs):
-                ctx.violation(f"pcDelta:{mode}:metric-input", "metric was handed a different collection", given[:20], seqs[:20])
+                ctx.count("metric_handed_another_collection")      # observation only: e.g. de-duplicated input is a legitimate implementation
         else:
             ctx.count("metric_usage_other_pattern")
     # count at distance 0 when a bin isolates 0 and distances are integral
